@@ -730,14 +730,26 @@ def splice(body, u, name):
         if t.kind == "ident" and t.text in ("while", "for", "loop"):
             # `for` in `for<'a>` or impl-for does not occur in bodies we extract
             loop_idx.append(k)
+    # loops generated by R4 (marked) live in their own ordinal namespace `zloop`, so that loops added to or removed
+    # from the source do not shift the invariants of the lane loops (and vice versa)
+    def _is_zip(k):
+        j = k + 1
+        while j < len(body) and not (body[j].kind == "punct" and body[j].text == "{"):
+            if body[j].kind == "comment" and "@ZIPLOOP@" in body[j].text:
+                return True
+            j += 1
+        return False
+    zip_idx = [k for k in loop_idx if _is_zip(k)]
+    src_idx = [k for k in loop_idx if not _is_zip(k)]
     inserts = {}   # token index -> list of Mark (inserted BEFORE that token)
     for s in u["sections"]:
         lab = s["label"].split()
-        if lab[0] == "loop":
+        if lab[0] in ("loop", "zloop"):
             n = int(lab[1])
-            if n >= len(loop_idx):
-                raise Undecided("anchor lost: unit %s expects loop #%d, body has %d loops" % (name, n, len(loop_idx)))
-            k = loop_idx[n]
+            pool = zip_idx if lab[0] == "zloop" else src_idx
+            if n >= len(pool):
+                raise Undecided("anchor lost: unit %s expects %s #%d, body has %d such loops" % (name, lab[0], n, len(pool)))
+            k = pool[n]
             # opening brace of the loop body: first `{` at depth 0 after the keyword
             depth = 0
             j = k + 1
@@ -752,7 +764,7 @@ def splice(body, u, name):
                 j += 1
             if j >= len(body):
                 raise Undecided("loop #%d of %s has no body" % (n, name))
-            marks = [Mark("\n" + ln, "loop%d" % n, None, u["path"], s["line0"] + off) for off, ln in enumerate(s["lines"]) if ln.strip()]
+            marks = [Mark("\n" + ln, "%s%d" % (lab[0], n), None, u["path"], s["line0"] + off) for off, ln in enumerate(s["lines"]) if ln.strip()]
             marks.append(Mark("\n", "ws", None, None, None))
             inserts.setdefault(j, []).extend(marks)
         elif lab[0] == "proof" and lab[1].startswith("before"):
